@@ -84,14 +84,19 @@ func aggRecord(a []string) (entities.Record, error) {
 	if err != nil || !ok {
 		return nil, fmt.Errorf("bad key")
 	}
-	ft, _ := strconv.ParseUint(a[1], 10, 8)
+	ft, e0 := strconv.ParseUint(a[1], 10, 8)
 	corr := strings.Split(a[2], ",")
 	if len(corr) != len(corrFields) {
 		return nil, fmt.Errorf("bad corr")
 	}
-	start, _ := strconv.ParseUint(a[3], 10, 32)
-	end, _ := strconv.ParseUint(a[4], 10, 32)
-	reason, _ := strconv.ParseUint(a[5], 10, 8)
+	start, e1 := strconv.ParseUint(a[3], 10, 32)
+	end, e2 := strconv.ParseUint(a[4], 10, 32)
+	reason, e3 := strconv.ParseUint(a[5], 10, 8)
+	for _, e := range []error{e0, e1, e2, e3} {
+		if e != nil {
+			return nil, e
+		}
+	}
 	tcp, err := unhex(a[6])
 	if err != nil {
 		return nil, err
